@@ -29,8 +29,10 @@ func (e *env[E, P, D, T]) bitReverse() {
 		}
 	} else {
 		lgs = append(lgs, 20, 21, 22)
-		if esz <= 8 {
-			lgs = append(lgs, 23, 24)
+		for _, lg := range []int{23, 24} { // further size-specialised routines while the vector stays within 512 MB
+			if esz<<uint(lg) <= 1<<29 {
+				lgs = append(lgs, lg)
+			}
 		}
 	}
 	for _, lg := range lgs {
